@@ -282,7 +282,7 @@ def history_of(origin, state):
 def random_history(ctx, hist_no):
     rng = ctx.rng
     n = rng.randint(10, 30)
-    prefixes, uris = ("a", "b", "c", "d"), ("u1", "u2", "u3")
+    prefixes, uris = ("a", "b", "c", "d", "e\u0301", "\u212b"), ("u1", "u2", "u3")
     # the forest starts with two documents imported from the same text (equal declarations, maps shared inside each document as
     # the importer does) plus separate nodes: "unrelated trees are unaffected" is checked across all of them
     doc = '<r xmlns:a="u1" xmlns:b="u2"><x><y/><w/></x><z xmlns:c="u3"/></r>'
@@ -294,7 +294,7 @@ def random_history(ctx, hist_no):
             x = stack.pop()
             nodes.append(x)
             stack.extend(reversed(x.children))
-    nodes += [Node("n") for _ in range(max(0, n - len(nodes)))]
+    nodes += [Node("n", id=("shared-id" if rng.random() < 0.25 else None)) for _ in range(max(0, n - len(nodes)))]
     n = len(nodes)
     label = {id(x): i for i, x in enumerate(nodes)}
     f = forest_of(real_state(nodes, label), n)
@@ -306,6 +306,24 @@ def random_history(ctx, hist_no):
     for _ in range(200):
         k = rng.random()
         x = rng.randrange(n)
+        if k < 0.04 and len(nodes) < 60:
+            # a new node constructed with parent=... (as the legacy importer does) but not attached yet: it has no bindings of its own
+            y = Node("n", parent=nodes[x])
+            nodes.append(y)
+            label[id(y)] = len(nodes) - 1
+            f.names.append("n")
+            f.kids.append([])
+            f.par.append(None)
+            n = len(nodes)
+            history.append(("spawn", x))
+            ctx.count("nodes_constructed_with_parent_argument")
+            if dict(y.nsmap) != {}:
+                # nothing was declared on it and it is attached nowhere: a binding it shows was taken from a node whose subtree it
+                # is not part of (and would later pass for "the child's own binding" when it gets attached)
+                ctx.violation("unattached-new-node-shows-bindings", f"a node constructed with parent=node {x} and not attached shows {dict(y.nsmap)}",
+                              {"n": n, "init": "two-imports", "history": [list(o) for o in history[:-1]], "op": ["spawn", x]})
+                break
+            continue
         if k < 0.1 and f.kids[x]:
             op = ("detach", x, rng.choice(f.kids[x]))
         elif k < 0.4:
@@ -375,11 +393,27 @@ def replay(ctx, witness):
     f = forest_of(real_state(nodes, label), len(nodes))
     for op in witness["history"]:
         op = tuple(op)
+        if op[0] == "spawn":
+            y = Node("n", parent=nodes[op[1]])
+            nodes.append(y)
+            label[id(y)] = len(nodes) - 1
+            f.names.append("n")
+            f.kids.append([])
+            f.par.append(None)
+            continue
         apply_real(nodes, op)
         if op[0] == "attach":
             f.add_child(op[1], op[2])
         elif op[0] == "detach":
             f.remove_child(op[1], op[2])
+    if witness["op"][0] == "spawn":
+        y = Node("n", parent=nodes[witness["op"][1]])
+        ctx.evaluated()
+        if dict(y.nsmap) != {}:
+            ctx.violation("unattached-new-node-shows-bindings", f"shows {dict(y.nsmap)}", witness)
+        ctx.distinct(1)
+        ctx.distinct(2)
+        return
     step(ctx, nodes, label, f, tuple(witness["op"]), lambda: witness)
     ctx.distinct(1)
     ctx.distinct(2)
